@@ -203,6 +203,7 @@ type Ex struct {
 	FrameChk     bool                     // generate store/frame obligations (C18)
 	isoDone      map[*ssa.BasicBlock]bool // isolated loops whose body has been verified
 	OnlyKinds    map[string]bool          // when set: only obligations of these kinds are generated, the others assumed
+	scopedPre    bool                     // the call precondition being generated comes from a clause scoped to a property
 	LevelChk     bool                     // ghost frame level tracking (C16)
 	Top          *Frame
 	covers       int
@@ -263,7 +264,7 @@ func (ex *Ex) pos(p token.Pos) string {
 
 // oblige records goal under the current path condition.
 func (ex *Ex) oblige(fr *Frame, st *State, name, kind string, props []string, text string, goal *T, pos token.Pos) {
-	if ex.OnlyKinds != nil && !ex.OnlyKinds[kind] {
+	if ex.OnlyKinds != nil && !ex.OnlyKinds[kind] && !(kind == "callpre" && ex.scopedPre && ex.OnlyKinds["scopedpre"]) {
 		// obligations of other kinds are discharged by the checks of their own properties
 		st.Assume(goal)
 		return
